@@ -1,13 +1,15 @@
-/* ghost.c -- definitions of the ghost variables declared in contracts/ops.h */
+/* ghost.c -- definitions of the ghost variables declared in contracts/*.h */
 #include <jwt.h>
 #include "jwt-private.h"
 #include <time.h>
-unsigned g_op_hmac_calls; const jwk_item_t *g_op_hmac_key; jwt_alg_t g_op_hmac_alg; const char *g_op_hmac_data; unsigned int g_op_hmac_len;
-unsigned g_op_sign_calls; const jwk_item_t *g_op_sign_key; jwt_alg_t g_op_sign_alg; const char *g_op_sign_data; unsigned int g_op_sign_len;
-unsigned g_op_verify_calls; const jwk_item_t *g_op_verify_key; jwt_alg_t g_op_verify_alg; const char *g_op_verify_data; unsigned int g_op_verify_len;
-const unsigned char *g_op_verify_sig; int g_op_verify_siglen; int g_op_verify_ret;
+/* primitive records (contracts/ops.h) */
+const void *g_mac_key; size_t g_mac_keylen; const void *g_mac_data; size_t g_mac_len; int g_mac_hash; const void *g_mac_out;
+const void *g_ver_keymat; const void *g_ver_data; size_t g_ver_len; int g_ver_hash; int g_ver_pss; int g_ver_family;
+const void *g_ver_sig; size_t g_ver_siglen; const void *g_ver_raw_r, *g_ver_raw_s; size_t g_ver_raw_n; int g_ver_valid;
+const void *g_sgn_keymat; const void *g_sgn_data; size_t g_sgn_len; int g_sgn_hash, g_sgn_pss; int g_sgn_done;
+#ifndef VERIF_NO_JWT_OPS_DEF
 struct jwt_crypto_ops *jwt_ops;
+#endif
 size_t g_vj_len_a, g_vj_len_b, g_vj_len_c, g_vj_len_d;
 /* the clock (time() model) */
 time_t g_now;
-jwt_claims_t g_vc_ret;
